@@ -40,6 +40,7 @@ type Scenario struct {
 	Roots                           []*x509.Certificate // nil => embedded Intel root
 	Resp                            map[string]world.Resp
 	Wall                            time.Time
+	Honest                          *Scenario           // the honest call for the same world, when the scenario was derived from one (history oracle)
 	Extra                           []*x509.Certificate // abstracted along with the world; results in ExtraS
 	ExtraS                          []core.Sexp
 }
@@ -588,8 +589,7 @@ func priorCall() *Scenario {
 }
 
 // runAfterPrior returns ok=false when the comparison cannot be made.
-func (sc *Scenario) runAfterPrior() (cl uint64, err error, ok bool) {
-	prior := priorCall()
+func (sc *Scenario) runAfterPrior(prior *Scenario) (cl uint64, err error, ok bool) {
 	if prior == nil || sc.NilOpts {
 		return 0, nil, false
 	}
@@ -615,17 +615,23 @@ func (sc *Scenario) runAfterPrior() (cl uint64, err error, ok bool) {
 // (the authenticity properties); otherwise report a quote rejected only after it
 // (the completeness property).
 func (sc *Scenario) historyGT(fresh uint64, acceptSide bool) string {
-	cl, err, ok := sc.runAfterPrior()
-	if !ok || cl == fresh {
-		return ""
-	}
-	switch {
-	case cl == 2:
-		return "verification panicked when the Options value had been used for an earlier call"
-	case acceptSide && fresh != 0 && cl == 0:
-		return fmt.Sprintf("rejected (class %d) with a fresh Options value but accepted when the same Options value had first been used for an honest call about another platform (stale per-call state)", fresh)
-	case !acceptSide && fresh == 0 && cl != 0:
-		return fmt.Sprintf("accepted with a fresh Options value but rejected when the same Options value had first been used for an honest call about another platform: %v", err)
+	// two histories: an honest call about another platform, and the honest call about this one
+	for _, h := range []struct {
+		prior *Scenario
+		what  string
+	}{{priorCall(), "an honest call about another platform"}, {sc.Honest, "the honest call about the same platform (genuine collateral and CRLs)"}} {
+		cl, err, ok := sc.runAfterPrior(h.prior)
+		if !ok || cl == fresh {
+			continue
+		}
+		switch {
+		case cl == 2:
+			return "verification panicked when the Options value had been used for an earlier call"
+		case acceptSide && fresh != 0 && cl == 0:
+			return fmt.Sprintf("rejected (class %d) with a fresh Options value but accepted when the same Options value had first been used for %s (stale per-call state)", fresh, h.what)
+		case !acceptSide && fresh == 0 && cl != 0:
+			return fmt.Sprintf("accepted with a fresh Options value but rejected when the same Options value had first been used for %s: %v", h.what, err)
+		}
 	}
 	return ""
 }
@@ -634,8 +640,10 @@ func (sc *Scenario) historyGT(fresh uint64, acceptSide bool) string {
 func scenarioFromWorld(w *world.World, getCollateral, checkCrl bool) *Scenario {
 	g := w.Getter()
 	now := &verify.TimeSet{PckCertChain: w.Now, TcbInfo: w.Now, QeIdentity: w.Now, PckCrl: w.Now, RootCaCrl: w.Now}
+	honest := &Scenario{Raw: append([]byte{}, w.Quote.Raw...), GetCollateral: true, CheckRevocations: true, Now: now,
+		Roots: []*x509.Certificate{w.PKI.Root.Cert}, Resp: cloneResp(g.Resp), Wall: w.Now}
 	return &Scenario{Raw: append([]byte{}, w.Quote.Raw...), GetCollateral: getCollateral, CheckRevocations: checkCrl, Now: now,
-		Roots: []*x509.Certificate{w.PKI.Root.Cert}, Resp: g.Resp, Wall: w.Now}
+		Roots: []*x509.Certificate{w.PKI.Root.Cert}, Resp: g.Resp, Wall: w.Now, Honest: honest}
 }
 
 func cloneResp(m map[string]world.Resp) map[string]world.Resp {
